@@ -396,7 +396,11 @@ def grain_rel(run, core, pair, kind):
             try:
                 out2 = f2(core.MineralPhase(ph), core.MineralFabric(fb), A2, D2, L2, gr.args["p"], gr.args["n"], gr.args["lam"])
             except Diverged as e:
-                run.prove(f"{tag}/same control flow on the transformed input", fn, list(c.hyps), z3.BoolVal(False), replay=rp, detail=f"control flow diverges: {e}")
+                res = native.call("contracts.C04", "nat_grain_search", dict(phase=ph, fabric=fb, kind=kind, seed=pi, count=40))
+                if res["failures"]:
+                    run.violation(f"{tag}/equivariance of the per-grain solver (native search)", fn, dict(checker="contracts.C04:nat_grain_rel", inputs=res["failures"][0]["inputs"], what=res["failures"][0]["what"]))
+                else:
+                    run.undecided(f"{tag}/coupled-stub proof not applicable", fn, f"call structure differs between the two runs ({e}); native search found no failing input")
                 continue
             except S.Infeasible:
                 run.undecided(f"{tag}", fn, "second run infeasible under the first run's path condition")
@@ -409,7 +413,16 @@ def grain_rel(run, core, pair, kind):
                           detail="a branch of the second run is not determined by the first run's path condition" if forked else f"first run made an extra call to {leftover[0]}")
                 continue
             bad = [lab for lab, ok in state["obl"] if not ok]
-            run.exact(f"{tag}/every callee receives arguments related as its relational contract requires", fn, not bad, "; ".join(bad) if bad else f"{len(state['obl'])} call sites")
+            if bad:
+                # the call structure differs from what the relational contracts cover (helper inlined, argument re-derived, ...):
+                # that is not evidence of a violation -- search natively; a concrete failing input decides, otherwise undecided
+                res = native.call("contracts.C04", "nat_grain_search", dict(phase=ph, fabric=fb, kind=kind, seed=pi, count=40))
+                if res["failures"]:
+                    run.violation(f"{tag}/equivariance of the per-grain solver (native search)", fn, dict(checker="contracts.C04:nat_grain_rel", inputs=res["failures"][0]["inputs"], what=res["failures"][0]["what"]))
+                else:
+                    run.undecided(f"{tag}/coupled-stub proof not applicable", fn, "call structure differs from the relational contracts (" + "; ".join(bad)[:160] + "); native search found no failing input")
+                continue
+            run.exact(f"{tag}/every callee receives arguments related as its relational contract requires", fn, True, f"{len(state['obl'])} call sites")
             dA2, E2 = out2
             if kind == "frame":
                 want = mm(np.asarray(dA1, dtype=object).view(S.SymArray), Q.T) if any(isinstance(v, Sym) for v in np.asarray(dA1, dtype=object).flat) else dA1
@@ -641,3 +654,20 @@ def nat_energy_rel(crss, idx, sv, beta, gam, p, n, lam):
     e1 = c._get_strain_energy(crss, beta, idx, float(gam), float(p), float(n), float(lam))
     e2 = c._get_strain_energy(crss, b2, idx, float(gam) * sig[idx[3]], float(p), float(n), float(lam))
     return dict(ok=bool(np.isclose(e1, e2, rtol=1e-9, atol=1e-12)), e1=float(e1), e2=float(e2))
+
+
+def nat_grain_search(phase, fabric, kind, seed, count):
+    rng = np.random.default_rng([seed, phase, fabric])
+    fails = []
+    for it in range(count):
+        q = rng.normal(size=4)
+        A = CL.O_quat(q / np.linalg.norm(q)) if it % 4 else np.eye(3)[rng.permutation(3)]
+        L = rng.normal(size=(3, 3))
+        if it % 3 == 0:
+            L = np.zeros((3, 3)); i, j = rng.choice(3, 2, replace=False); L[i, j] = 2.0
+        kw = dict(phase=phase, fabric=fabric, kind=kind, A=A.tolist(), L=L.tolist(), p=float(rng.uniform(1, 2)), n=float(rng.choice([2.0, 3.5, 4.0, rng.uniform(2, 5)])), lam=float(rng.uniform(0, 10)), q=rng.normal(size=4).tolist())
+        r = nat_grain_rel(**kw)
+        if not r["ok"]:
+            fails.append(dict(inputs=kw, what="; ".join(r["messages"])))
+            break
+    return dict(failures=fails)
